@@ -1068,10 +1068,14 @@ class PyCdlib:
                                                 new_record.rock_ridge.bytes_to_skip,
                                                 True, new_record.file_identifier())
                     cdfp.seek(orig_pos)
-                    block = self.pvd.track_rr_ce_entry(ce_record.bl_cont_area,
-                                                       ce_record.offset_cont_area,
-                                                       ce_record.len_cont_area)
-                    new_record.rock_ridge.update_ce_block(block)
+                    # The continuation area of the root's 'dot' record (the
+                    # 'ER' sector) is laid out on its own, so it is not one
+                    # of the blocks that later entries may share.
+                    if not (dir_record.is_root and new_record.is_dot()):
+                        block = self.pvd.track_rr_ce_entry(ce_record.bl_cont_area,
+                                                           ce_record.offset_cont_area,
+                                                           ce_record.len_cont_area)
+                        new_record.rock_ridge.update_ce_block(block)
 
                 # Cache some properties of this record for later use.
                 is_symlink = new_record.is_symlink()
